@@ -194,6 +194,8 @@ static bool live_del(void *p)
     return false;
 }
 
+static bool fault_points_off;
+
 void sim_alloc_reset(void)
 {
     memset(live, 0, sizeof(live));
@@ -204,6 +206,7 @@ void sim_alloc_reset(void)
     eligible_seen = failed_count = 0;
     sticky = false;
     suspended = 0;
+    fault_points_off = false;
 }
 
 unsigned sim_alloc_live(void) { return nlive; }
@@ -248,9 +251,11 @@ fail:
     return true;
 }
 
+void sim_alloc_fault_points(bool on) { fault_points_off = !on; }
+
 bool sim_alloc_fault_point(const char *what)
 {
-    if (suspended || (countdown <= 0 && !sticky))
+    if (suspended || fault_points_off || (countdown <= 0 && !sticky))
         return false;
     eligible_seen++;
     if (!(sticky && countdown <= 0) && --countdown > 0)
